@@ -26,14 +26,18 @@ import (
 func (e *engine) runC29() {
 	e.rep.Rule = "opener rule: the REAL trackedLink.trackLink run in both directions over fake mounted links for pairs of real key IDs and adversarial IDs (shared prefixes, one a byte-prefix of the other, leading zero bytes, different lengths, equal); subscription handle: random deterministic schedules of add-handler / remove-handler / release / publish / run-one-delivery-goroutine on a real subscription (delivery goroutines held at the gate hook) plus a concurrent release-while-publishing stress; Execute announcements: random batches of subscribe / release / new peer / peer end applied at the loop top, in the hold-break and after the sweep of a gate-stepped real Execute loop, beliefs of fake peers compared after every sweep; distinct = distinct op line"
 	e.rep.Require("opens.1", "opens.0", "opens.equal", "sub.calls", "sub.nocalls", "sub.release-pending", "sub.stress", "exec.step", "exec.release-before-announce", "exec.release-in-hold-break", "exec.parked",
-		"ctl.multi-identity", "ctl.history", "slow.release", "slow.subscribe", "sendq.below", "sendq.full", "sendq.beyond", "recv.step", "recv.reconnect", "recv.replace-live", "recv.close", "hist.release", "mesh.unsubscribe-received")
+		"ctl.multi-identity", "ctl.history", "slow.release", "slow.subscribe", "sendq.below", "sendq.full", "sendq.beyond", "recv.step", "recv.reconnect", "recv.replace-live", "recv.close", "hist.release", "mesh.unsubscribe-received", "ctl.blocked-open", "sub.release-during-callback")
 	e.c29Opens()
 	e.c29Sub()
 	e.c29SubStress()
+	e.c29ReleaseDuringCallback()
 	e.c29Exec()
 	e.c29Ctl()
+	e.c29CtlBlockedOpen()
 	e.c29Slow()
 	e.c29Recv()
+	e.rep.Require("replace.release-lost")
+	e.replacedLiveRelease()
 	// the belief monitor on meshes of real routers (every neighbour, incl. late ones, incl. a
 	// tuple that comes up again after a release made while it was down; releases RECEIVED by real routers)
 	e.runHistory("c29-late-link", 3, []string{"connect:0:1", "settle", "sub:1:c1", "sub:0:c1", "settle", "sub:2:c1", "connect:1:2", "settle", "rel:1:c1", "settle", "rel:0:c1", "rel:2:c1", "settle"}, 0, "hist.release")
@@ -807,4 +811,114 @@ func dropEmptyBeliefs(s string) string {
 		return "_"
 	}
 	return strings.Join(out, ",")
+}
+
+// c29ReleaseDuringCallback: a subscription with three handlers; a delivery goroutine is inside the
+// FIRST handler it calls (the handler blocks) when Release() is called concurrently; a second
+// message's delivery goroutine is pending too. Then the handler returns. Stated directly: no
+// handler STARTS after Release() has returned, and Release() does not return while the delivery
+// that was in progress can still start further handlers (it waits for the subscription's lock).
+func (e *engine) c29ReleaseDuringCallback() {
+	rng := e.rng
+	for sc := 0; sc < 4*e.a.Scale; sc++ {
+		x := newNode(0, newKey(rng))
+		s, err := x.fs.AddSubscription(x.ctx, x.key.sk, "c1")
+		if err != nil {
+			panic(err)
+		}
+		var mu sync.Mutex
+		var relReturned atomic.Bool
+		started := 0
+		lateStarts := 0
+		var order []string
+		entered := make(chan int, 8)
+		unblock := make(chan struct{})
+		for h := 1; h <= 3; h++ {
+			h := h
+			s.AddHandler(func(m pubsub.Message) {
+				mu.Lock()
+				started++
+				first := started == 1
+				if relReturned.Load() {
+					lateStarts++
+				}
+				order = append(order, fmt.Sprintf("%d/%s", h, string(m.GetData())))
+				mu.Unlock()
+				if first {
+					entered <- h
+					<-unblock
+				}
+			})
+		}
+		x.start()
+		if err := x.fs.Publish(x.ctx, "c1", x.key.sk, []byte("a")); err != nil {
+			panic(err)
+		}
+		select {
+		case <-entered:
+		case <-time.After(10 * time.Second):
+			panic("no handler was called")
+		}
+		second := sc%2 == 1
+		if second {
+			if err := x.fs.Publish(x.ctx, "c1", x.key.sk, []byte("b")); err != nil {
+				panic(err)
+			}
+		}
+		relDone := make(chan struct{})
+		go func() {
+			s.Release()
+			relReturned.Store(true)
+			close(relDone)
+		}()
+		// Release cannot return while a delivery holds the subscription's lock
+		early := false
+		select {
+		case <-relDone:
+			early = true
+		case <-time.After(20 * time.Millisecond):
+		}
+		mu.Lock()
+		startedAtRelease := started
+		mu.Unlock()
+		close(unblock)
+		select {
+		case <-relDone:
+		case <-time.After(10 * time.Second):
+			panic("Release did not return")
+		}
+		time.Sleep(3 * time.Millisecond)
+		waitFor(time.Second, func() bool { mu.Lock(); defer mu.Unlock(); return started >= 3 })
+		time.Sleep(2 * time.Millisecond)
+		mu.Lock()
+		late, tot := lateStarts, started
+		mu.Unlock()
+		mon := ""
+		if late != 0 {
+			mon = fmt.Sprintf("%d handler(s) of a subscription were STARTED after Release() of that subscription had returned (Release ran while a delivery was inside its first handler; %d handler calls in total, %d before Release was called)", late, tot, startedAtRelease)
+		}
+		// model: the delivery in progress is one atomic run (it holds the subscription's lock), Release follows it
+		evs := "add:1,add:2,add:3,spawn:1,run:0,relA,relB"
+		if second {
+			evs = "add:1,add:2,add:3,spawn:1,spawn:2,run:0,relA,relB,run:0"
+		}
+		ncalls := func(evs string) (string, int) {
+			op := fmt.Sprintf("pubsub.sub evs=%s #release-during-callback sc=%d", evs, sc)
+			nm := 0
+			if c := lib.KV(e.m.Query(op), "calls"); c != "_" {
+				nm = len(strings.Split(c, ","))
+			}
+			return op, nm
+		}
+		op, nm := ncalls(evs)
+		if second {
+			// the pending delivery and Release() both wait for the subscription's lock: either may get it first
+			if op2, nm2 := ncalls("add:1,add:2,add:3,spawn:1,spawn:2,run:0,run:0,relA,relB"); nm2 == tot {
+				op, nm = op2, nm2
+			}
+		}
+		impl := fmt.Sprintf("calls=%d early=%v", tot, early)
+		e.rep.Compare(op, fmt.Sprintf("calls=%d early=false", nm), impl, "sub.release-during-callback", "pubsub.sub:release-during-callback", mon)
+		x.stop()
+	}
 }
